@@ -7,12 +7,8 @@
 const char *wsq_flag_key(unsigned flag)
 {
 	switch (flag) {
-	case WSQ_CONT_FIN_REJECTED: return "continuation-opcode-rejected";
 	case WSQ_DATA_IN_FRAGMENTED_OK: return "data-opcode-inside-fragmented-message-accepted";
 	case WSQ_CONT_WITHOUT_START_OK: return "continuation-without-start-accepted";
-	case WSQ_PARSE_AFTER_CLOSE: return "frames-after-close-delivered";
-	case WSQ_CTRL_FRAGMENTED_OK: return "fragmented-control-frame-accepted";
-	case WSQ_CTRL_TOO_LONG_OK: return "control-frame-over-125-accepted";
 	}
 	return "?";
 }
@@ -56,7 +52,7 @@ void wsq_run(const unsigned char *s, size_t n, const size_t *read_end, size_t nr
 			size_t have = avail - pos, hdr = 2, i;
 			uint64_t len;
 			int fin, op, masked, bad = 0;
-			if (out->closed && !(flags & WSQ_PARSE_AFTER_CLOSE)) break;
+			if (out->closed) break;                  /* terminal */
 			if (have < 2) break;
 			fin = b[0] >> 7; op = b[0] & 0x0f; masked = b[1] >> 7;   /* RSV bits are not in the alphabet and not looked at */
 			len = b[1] & 0x7f;
@@ -69,10 +65,8 @@ void wsq_run(const unsigned char *s, size_t n, const size_t *read_end, size_t nr
 				for (i = 0; i < 8; i++) len = (len << 8) | b[2 + i];
 				hdr = 10;
 				if (len > max_frame) {
-					/* refused on the header.  [ws.c] consumes the 10 length bytes only, not a masking key */
-					pos += 10;
-					out->closed = 1;
-					continue;
+					out->closed = 1;                 /* refused on the header */
+					break;
 				}
 			}
 			if (masked) hdr += 4;
@@ -83,8 +77,8 @@ void wsq_run(const unsigned char *s, size_t n, const size_t *read_end, size_t nr
 
 			if ((op >= 3 && op <= 7) || op >= 0xb) bad = 1;
 			else if (op >= 8) {
-				if (!fin && !(flags & WSQ_CTRL_FRAGMENTED_OK)) bad = 1;
-				else if (len > 125 && !(flags & WSQ_CTRL_TOO_LONG_OK)) bad = 1;
+				if (!fin) bad = 1;
+				else if (len > 125) bad = 1;
 				else if (op == 8) bad = 1;       /* close frame: orderly end, same observable outcome */
 				/* ping / pong: nothing to deliver */
 			} else if (!fin) {
@@ -101,7 +95,7 @@ void wsq_run(const unsigned char *s, size_t n, const size_t *read_end, size_t nr
 				else deliver(out, op, NULL, 0, pl, (size_t)len);
 			} else {
 				if (!in_msg) bad = 1;
-				else if (flags & WSQ_CONT_FIN_REJECTED) bad = 1;                                           /* [ws.c] fragments stay buffered */
+				else if (msg_type == 0) bad = 1;     /* [ws.c] a message started by a continuation frame (C) has no type: closes */
 				else { deliver(out, msg_type, acc, alen, pl, (size_t)len); in_msg = 0; alen = 0; }
 			}
 			if (bad) out->closed = 1;
